@@ -57,6 +57,7 @@ ATOMS += [
     "9218868437227405312",      # bits of +inf
     "4609434218613702656",      # bits of 1.5
     "-2**63",                   # bits of -0.0
+    "10**5000", "-10**5000", "10**5000 + 1",   # beyond the 4300-digit limit of str(int)
     "1633837924", "'abcd'",     # 0x61626364
     "1.2926117907728089e+161", "'abcdefgh'",   # struct.pack('!d', x) == b'abcdefgh'
     "'\\x00\\x00\\x00\\x01'", "'4607182418800017408'", "'1.0'", "'True'",
